@@ -17,3 +17,11 @@ Print Assumptions C13_last_response.
 Theorem C13_cache_modes_agree : forall d h, fst (run (start true d) h) = fst (run (start false d) h).
 Proof. exact C13_modes_agree. Qed.
 Print Assumptions C13_cache_modes_agree.
+
+(* composed with loading (Proofs/EndToEnd.v): on data loaded from the files that encode d, whatever was served before, the
+   response is the fresh answer on the loaded dataset *)
+From TrV Require Import Spec Loader2 Proofs.Loader2Proofs Proofs.EndToEnd.
+Theorem C13_served_on_loaded_files_is_fresh : forall all d h req, wf_data_b d = true -> encodable_b d = true ->
+  served all d h req = fresh_answer (canon d) req.
+Proof. exact served_is_fresh. Qed.
+Print Assumptions C13_served_on_loaded_files_is_fresh.
